@@ -66,7 +66,10 @@ def budget(tier):
 
 def _text_table(rng, maxrows, ragged_ok=True):
     nf = rng.randint(1, 4)
-    hdr = FIELDS[:nf]
+    hdr = list(FIELDS[:nf])
+    if rng.random() < 0.12:
+        # field names need not be text
+        hdr[rng.randrange(nf)] = rng.choice([None, 7, 2.5, True, ''])
     n = rng.randint(0, maxrows)
     rows = [list(hdr)]
     if rng.random() < 0.04:
